@@ -651,7 +651,10 @@ def run_case(case, ctx, bf=None, deciding=True):
                                  pre + "leaf %s should be at %r from the new root, is at %r; result %s" % (bad + (fmt(after),)))
     elif op == "to_outgroup_position":
         first = tree._seed_node._child_nodes[0] if tree._seed_node._child_nodes else None
-        if first is not nodes[target] or ref.clade(after[3][0]) != bf.clades[target]:
+        # an outgroup that is itself an out-degree-one node is removed by the documented
+        # suppress_unifurcations=True: then only its clade can be demanded as first child
+        same_node = first is nodes[target] or (a.get("su", True) and len(bf.nodes[target][3]) == 1)
+        if not same_node or ref.clade(after[3][0]) != bf.clades[target]:
             outcome = report("to_outgroup_position|outgroup-not-first-child", pre + "result %s" % fmt(after))
     if op in ("reseed_at", "reroot_at_node") and tree._seed_node is not nodes[target]:
         ctx.count("info_seed_is_not_the_requested_node")
